@@ -53,21 +53,24 @@ def worker(i, jobs, results, all_props):
                 break
             a = sh("git -C %s apply %s" % (wt, patch))
             if a.returncode != 0:
-                results.append((kind, name, prop, "patch does not apply", ""))
+                res = (kind, name, prop, "patch does not apply", "")
+                results.append(res)
+                print("%-8s %-32s %-4s %s" % res[:4], flush=True)
                 continue
             if kind == "mutant":
                 rc, out = run_check(prop, wt, env)
                 verdict = {1: "reported", 0: "**MISSED**", 2: "no verdict (does not build)"}.get(rc, "rc=%d" % rc)
-                results.append((kind, name, prop, verdict, first_report(out)[:160]))
+                res = (kind, name, prop, verdict, first_report(out)[:160])
             else:
                 bad = []
                 for p in all_props:
                     rc, out = run_check(p, wt, env)
                     if rc != 0:
                         bad.append("%s: %s" % (p, first_report(out)[:110] or "rc=%d" % rc))
-                results.append((kind, name, "all", "silent (all %d checks)" % len(all_props) if not bad else "**FALSE ALARM**", "; ".join(bad)))
+                res = (kind, name, "all", "silent (all %d checks)" % len(all_props) if not bad else "**FALSE ALARM**", "; ".join(bad))
             sh("git -C %s checkout -- . && git -C %s clean -fdq" % (wt, wt))
-            print("%-8s %-32s %-4s %s" % results[-1][:4], flush=True)
+            results.append(res)
+            print("%-8s %-32s %-4s %s" % res[:4], flush=True)
     finally:
         sh("git -C %s worktree remove --force %s" % (REPO, wt))
         sh("rm -rf /tmp/valcache/%d" % i)
